@@ -165,6 +165,7 @@ func init() {
 			"hence level 'other', not a proof of totality.",
 		Assumptions: []string{wellFormed},
 		Rules: []func(*Ctx){
+			func(c *Ctx) { c.ruleUnsetNil("R-UNSETNIL"); c.R.Floor("R-UNSETNIL", 3) },
 			func(c *Ctx) { c.ruleAssert("R-ASSERT", c.scopeData()); c.R.Floor("R-ASSERT", 14) },
 			func(c *Ctx) { c.ruleNilGuard("R-NILGUARD", c.scopeData()); c.R.Floor("R-NILGUARD", 30) },
 			func(c *Ctx) { c.ruleMapNil("R-MAPNIL", c.scopePkg("schema")); c.R.Floor("R-MAPNIL", 10) },
